@@ -2,6 +2,7 @@ CONSTANTS
   NThreads = 2
   K = 2
   Apis = {"crc"}
+  Rezero = TRUE
   PublishEarly = TRUE
 SPECIFICATION Spec
 INVARIANTS UseSeesFinalEquivalent
